@@ -28,9 +28,16 @@ type verifBWEvent struct {
 	i, last uint64
 }
 
+// verifWrapCanceled: the injected failure wraps context.Canceled (a job that
+// fails because one of its own sub-operations was cancelled)
+var verifWrapCanceled bool
+
 func verifRunBatchWork(size, limit int64, failPref, failJob int64) (trace []verifBWEvent, err error, injected error) {
 	var mu sync.Mutex
 	injected = errors.Errorf("injected")
+	if verifWrapCanceled {
+		injected = errors.Wrap(context.Canceled, "injected")
+	}
 	err = BatchWork(context.Background(), size, limit,
 		func(_ context.Context, last uint64) error {
 			mu.Lock()
@@ -132,36 +139,39 @@ func verifCheckBatchWork(size, limit, failPref, failJob int64) string {
 
 func TestVerifReplay(t *testing.T) {
 	cases, failed := 0, 0
-	for size := int64(1); size <= 10; size++ {
-		for limit := int64(1); limit <= 5; limit++ {
-			nb := (size + limit - 1) / limit
-			var runs [][2]int64
-			runs = append(runs, [2]int64{-1, -1})
-			for p := int64(0); p < nb; p++ {
-				runs = append(runs, [2]int64{p, -1})
-			}
-			for j := int64(0); j < size; j++ {
-				runs = append(runs, [2]int64{-1, j})
-			}
-			for _, r := range runs {
-				cases++
-				var msg string
-				func() {
-					defer func() {
-						if x := recover(); x != nil {
-							msg = fmt.Sprintf("panic: %v", x)
-						}
+	for _, wrap := range []bool{false, true} {
+		verifWrapCanceled = wrap
+		for size := int64(1); size <= 10; size++ {
+			for limit := int64(1); limit <= 5; limit++ {
+				nb := (size + limit - 1) / limit
+				var runs [][2]int64
+				runs = append(runs, [2]int64{-1, -1})
+				for p := int64(0); p < nb; p++ {
+					runs = append(runs, [2]int64{p, -1})
+				}
+				for j := int64(0); j < size; j++ {
+					runs = append(runs, [2]int64{-1, j})
+				}
+				for _, r := range runs {
+					cases++
+					var msg string
+					func() {
+						defer func() {
+							if x := recover(); x != nil {
+								msg = fmt.Sprintf("panic: %v", x)
+							}
+						}()
+						msg = verifCheckBatchWork(size, limit, r[0], r[1])
 					}()
-					msg = verifCheckBatchWork(size, limit, r[0], r[1])
-				}()
-				if msg != "" {
-					failed++
-					if failed <= 5 {
-						fmt.Printf("VERIF-BOUNDED-FAIL size=%d limit=%d failPref=%d failJob=%d: %s\n", size, limit, r[0], r[1], msg)
+					if msg != "" {
+						failed++
+						if failed <= 5 {
+							fmt.Printf("VERIF-BOUNDED-FAIL size=%d limit=%d failPref=%d failJob=%d wrapCanceled=%v: %s\n", size, limit, r[0], r[1], wrap, msg)
+						}
 					}
 				}
 			}
 		}
 	}
-	fmt.Printf("VERIF-BOUNDED cases=%d failed=%d bound=sizes 1..10, limits 1..5, no failure or one injected failure at every pref call and every job\n", cases, failed)
+	fmt.Printf("VERIF-BOUNDED cases=%d failed=%d bound=sizes 1..10, limits 1..5, no failure or one injected failure (a plain error, and an error wrapping context.Canceled) at every pref call and every job\n", cases, failed)
 }
